@@ -188,7 +188,7 @@ func runProperty(p *Program, id string, cfg *PropCfg, timeout int) *checkResult 
 			res.structural = append(res.structural, &Obligation{Name: j.Name + "#unsupported", Kind: "unsupported", Status: "failed", Note: j.Err, Job: j.Name})
 		}
 		for _, o := range j.Obls {
-			if o.Kind == "pre-sat" && o.Status != "failed" {
+			if o.Kind == "pre-sat" && o.Status == "proved" {
 				res.structural = append(res.structural, &Obligation{Name: j.Name + "#vacuous-precondition", Kind: "vacuity", Status: "failed",
 					Note: "the function's precondition (with type invariants) is unsatisfiable or undecided: " + o.Status, Job: j.Name})
 			}
@@ -333,7 +333,7 @@ func report(p *Program, id string, cfg *PropCfg, res *checkResult, tier string, 
 					continue
 				}
 			}
-			if u, ok := undec[id+"|"+o.Name]; ok && o.Status == "unknown" {
+			if u, ok := undec[id+"|"+o.Name]; ok && o.Status != "proved" {
 				undecidedNow = append(undecidedNow, o.Name+": "+u.Reason)
 				continue
 			}
